@@ -459,6 +459,59 @@ theorem prepare_scheduled_once (s s' : State) (c : CId) (prevSpawn : Time)
     · rw [hget]
       rw [get_set_upd s c (fun x => { x with phase := Phase.initialized }) (fun _ => rfl)]
 
+/-! ### BeginBlock's consumption of the launch queue, per consumer -/
+
+theorem sortedQ_tail (e : Time × List CId) (q : TimeQueue) (h : sortedQ (e :: q) = true) : sortedQ q = true := by
+  unfold sortedQ at h
+  simp only [Bool.and_eq_true] at h
+  exact h.2
+
+theorem sortedQ_replace_head (t : Time) (ids ids' : List CId) (q : TimeQueue)
+    (h : sortedQ ((t, ids) :: q) = true) : sortedQ ((t, ids') :: q) = true := by
+  unfold sortedQ at h ⊢
+  exact h
+
+theorem tqConsume_go_sorted (q : TimeQueue) (now : Time) (limit : Nat) (res : List CId)
+    (hs : sortedQ q = true) : sortedQ (tqConsume.go now limit q res).2 = true := by
+  induction q generalizing res with
+  | nil => simp [tqConsume.go, sortedQ]
+  | cons e rest ih =>
+    obtain ⟨t, ids⟩ := e
+    simp only [tqConsume.go]
+    split
+    · exact hs
+    · split
+      · exact hs
+      · split
+        · exact ih _ (sortedQ_tail _ _ hs)
+        · exact sortedQ_replace_head t ids _ rest hs
+
+/-- what stays queued after a block's launches is still ordered by time -/
+theorem launch_keeps_sorted (s : State) (hs : sortedQ s.spawnQ = true) :
+    sortedQ (tqConsume s.spawnQ s.now 200).2 = true := by
+  unfold tqConsume
+  exact tqConsume_go_sorted _ _ _ _ hs
+
+/-- per consumer: the entries handed to the launch loop plus the entries left in the queue are the
+    entries there were — a consumer scheduled once is either launched (attempted) once or still
+    scheduled once, never both and never neither -/
+theorem launch_counts_conserved (s : State) (c : CId) :
+    ((tqConsume s.spawnQ s.now 200).1.filter (· == c)).length + countIn (tqConsume s.spawnQ s.now 200).2 c
+      = countIn s.spawnQ c := by
+  have h := congrArg (fun l => (l.filter (· == c)).length) (launch_queue_conserved s)
+  simp only [List.filter_append, List.length_append] at h
+  exact h
+
+theorem launch_once_either (s : State) (c : CId) (h : countIn s.spawnQ c = 1) :
+    (((tqConsume s.spawnQ s.now 200).1.filter (· == c)).length = 1 ∧ countIn (tqConsume s.spawnQ s.now 200).2 c = 0) ∨
+    (((tqConsume s.spawnQ s.now 200).1.filter (· == c)).length = 0 ∧ countIn (tqConsume s.spawnQ s.now 200).2 c = 1) := by
+  have := launch_counts_conserved s c
+  omega
+
+example : sortedQ (tqConsume [(1, ["a", "b", "x"]), (2, ["c"])] 5 2).2 = true ∧
+    countIn (tqConsume [(1, ["a", "b", "x"]), (2, ["c"])] 5 2).2 "x" = 1 ∧
+    ((tqConsume [(1, ["a", "b", "x"]), (2, ["c"])] 5 2).1.filter (· == "x")).length = 0 := by decide
+
 end Queue
 
 end ICS.Props.C10
